@@ -23,7 +23,10 @@ def case(args):
     rng.shuffle(delay)
     # the producer writes in one piece, or in two pieces with a pause in between (the reader sees a short read meanwhile)
     two = (i % 3 == 1)
-    prod = sp.proc(t3.Proc("prod", kind="cattok" if two else "cat", ins=[("a", [(s, "out")])], outs=[("o", "{i:a}.stream")], stream_outs=["o"], sleep=delay[0],
+    # where the stream lives: beside the input, in a sub-directory that does not exist yet, or outside the working directory
+    # (parent-relative, directory not existing yet)
+    spat = rng.choice(["{i:a}.stream", "{i:a}.stream", "st/new/{i:a}.stream", "../stq%d/{i:a|basename}.stream" % (i % 7)])
+    prod = sp.proc(t3.Proc("prod", kind="cattok" if two else "cat", ins=[("a", [(s, "out")])], outs=[("o", spat)], stream_outs=["o"], sleep=delay[0],
                            pause="sleep 0.1" if two else None))
     chain = rng.random() < 0.3
     if chain:   # a chain of two streaming stages
@@ -44,7 +47,7 @@ def case(args):
         p2 = sp.proc(t3.Proc("prod2", kind="cat", ins=[("a", [(s2, "out")])], outs=[("o", "{i:a}.second")], stream_outs=["o"] if second_streams else []))
         cons_ins.append(("b", [(p2, "o")]))
         sp.max += n
-    sp.proc(t3.Proc("cons", kind="cat", ins=cons_ins, outs=[("o", "{i:a}.cons")], sleep=delay[1]))
+    sp.proc(t3.Proc("cons", kind="cat", ins=cons_ins, outs=[("o", "{i:a|basename}.cons")], sleep=delay[1]))
     model = t3.run_model(sp.text())
     sc = t3.Scratch()
     try:
